@@ -51,7 +51,7 @@ Theorem C20_routine_footprints :
   map (fun r => (r_id r, footprint r)) routines =
   [(1%Z, []); (2%Z, []); (3%Z, []); (4%Z, []); (5%Z, []); (6%Z, []); (7%Z, []); (8%Z, []); (9%Z, []); (10%Z, []);
    (11%Z, []); (12%Z, []);
-   (20%Z, [0; 1]); (21%Z, [0]); (22%Z, [0]); (23%Z, [0]); (24%Z, [0]); (25%Z, [2])].
+   (20%Z, [0; 1]); (21%Z, [0]); (22%Z, [0]); (23%Z, [0]); (24%Z, [0]); (25%Z, [2]); (30%Z, [])].
 Proof. exact routines_effects. Qed.
 Print Assumptions C20_routine_footprints.
 
